@@ -126,11 +126,9 @@ theorem specBody_eq (ts : List Tok) (h : ∀ t ∈ ts, tokOk t = true) :
     simp [specPiece]
 
 /-- the class of arguments the `#` statements are about: every string-literal token has a text `Lexer.string_constant` can produce
-    (each `"` in it is escaped), and the spelling between the quotes (`bodyOf`, = `C03.strBody`) does not end in a backslash (only
-    the stray character `\`, an `unknown` token, as last token of the argument does that: `Lexer.string_constant` then reads the
-    closing quote as escaped) -/
-def StrArgOk (ts : List Tok) : Prop :=
-  (∀ t ∈ ts, tokOk t = true) ∧ (bodyOf ts).toList.getLast? ≠ some '\\'
+    (each `"` in it is escaped).  Every token the lexer makes is in it (`tokenize_tokOk`).  (Before the repair of finding D45 a second
+    clause excluded spellings that end in a backslash.) -/
+def StrArgOk (ts : List Tok) : Prop := ∀ t ∈ ts, tokOk t = true
 
 instance (ts : List Tok) : Decidable (StrArgOk ts) := by unfold StrArgOk; exact inferInstance
 
@@ -140,11 +138,10 @@ open CbiVerif.Spec.Prosser (lexQuoted lexOne)
 theorem lexQuoted_go_nil (f : Nat) (acc : List Char) : lexQuoted.go '"' f acc [] = none := by
   cases f <;> rfl
 
-/-- one step of `Lexer.string_constant` on a backslash that is not followed by `"` -/
-theorem lexString_go_bs (g : Nat) (acc : List Char) (c2 : Char) (r2 : List Char) (h : c2 ≠ '"') :
-    lexString.go (g + 1) acc ('\\' :: c2 :: r2) = lexString.go g (acc ++ ['\\']) (c2 :: r2) := by
+/-- one step of `Lexer.string_constant` on a backslash followed by a character: an escape pair (repair of finding D45) -/
+theorem lexString_go_bs (g : Nat) (acc : List Char) (c2 : Char) (r2 : List Char) :
+    lexString.go (g + 1) acc ('\\' :: c2 :: r2) = lexString.go g (acc ++ ['\\', c2]) r2 := by
   rw [lexString.go]
-  all_goals (intros; simp_all)
 
 theorem lexString_go_plain' (g : Nat) (acc : List Char) :
     lexString.go (g + 1) acc ['\\'] = lexString.go g (acc ++ ['\\']) [] := by
@@ -157,19 +154,19 @@ theorem lexString_go_plain (g : Nat) (acc : List Char) (c : Char) (r : List Char
   rw [lexString.go]
   all_goals (intros; simp_all)
 
-/-- **the lexers agree on a complete string literal** unless its last character before the closing quote is a backslash: if
-    `lexQuoted` (specification, C11 6.4.5: `\` + any character is an escape pair) reads all of `s` as the rest of a string literal,
-    so does `Lexer.string_constant` (which pairs a backslash only with a following `"`), with the same characters. -/
+/-- **the lexers agree on a complete string literal**: if `lexQuoted` (specification, C11 6.4.5: `\` + any character is an escape
+    pair) reads all of `s` as the rest of a string literal, so does `Lexer.string_constant` (as repaired for finding D45), with the
+    same characters. -/
 theorem lexString_of_lexQuoted (f : Nat) : ∀ (s acc acc' t : List Char), lexQuoted.go '"' f acc s = some (t, []) →
-    (∀ p, s ≠ p ++ ['\\', '"']) → ∀ f', s.length < f' →
+    ∀ f', s.length < f' →
     ∃ m, t = acc ++ m ++ ['"'] ∧ lexString.go f' acc' s = some (acc' ++ m, []) := by
   induction f with
   | zero => intro s acc acc' t h; simp [lexQuoted.go] at h
   | succ f ih =>
-    intro s acc acc' t h hne f' hf'
-    match s, h, hne, hf' with
-    | [], h, _, _ => simp [lexQuoted.go] at h
-    | c :: r, h, hne, hf' =>
+    intro s acc acc' t h f' hf'
+    match s, h, hf' with
+    | [], h, _ => simp [lexQuoted.go] at h
+    | c :: r, h, hf' =>
       obtain ⟨g, rfl⟩ : ∃ g, f' = g + 1 := ⟨f' - 1, by simp at hf'; omega⟩
       by_cases hq : c = '"'
       · subst hq
@@ -178,39 +175,14 @@ theorem lexString_of_lexQuoted (f : Nat) : ∀ (s acc acc' t : List Char), lexQu
         exact ⟨[], by simp, by rw [lexString.go]; simp⟩
       · by_cases hb : c = '\\'
         · subst hb
-          match r, h, hne, hf' with
-          | [], h, _, _ => simp [lexQuoted.go] at h
-          | c2 :: r2, h, hne, hf' =>
+          match r, h, hf' with
+          | [], h, _ => simp [lexQuoted.go] at h
+          | c2 :: r2, h, hf' =>
             have h' : lexQuoted.go '"' f (acc ++ ['\\', c2]) r2 = some (t, []) := by
               simpa [lexQuoted.go] using h
-            by_cases hq2 : c2 = '"'
-            · subst hq2
-              obtain ⟨m, hm, hgo⟩ := ih r2 _ (acc' ++ ['\\', '"']) t h'
-                (by intro p hp; exact hne ('\\' :: '"' :: p) (by simp [hp])) g (by simp at hf'; omega)
-              refine ⟨['\\', '"'] ++ m, by simp [hm], ?_⟩
-              rw [lexString.go]; simpa using hgo
-            · rw [lexString_go_bs g acc' c2 r2 hq2]
-              match r2, h', hne, hf' with
-              | [], h', _, _ => rw [lexQuoted_go_nil] at h'; cases h'
-              | c3 :: r3, h', hne, hf' =>
-                obtain ⟨g', rfl⟩ : ∃ g', g = g' + 1 := ⟨g - 1, by simp at hf'; omega⟩
-                have hstep : lexString.go (g' + 1) (acc' ++ ['\\']) (c2 :: c3 :: r3)
-                    = lexString.go g' (acc' ++ ['\\', c2]) (c3 :: r3) := by
-                  by_cases hb2 : c2 = '\\'
-                  · subst hb2
-                    have hc3 : c3 ≠ '"' := by
-                      intro h3; subst h3
-                      cases f with
-                      | zero => simp [lexQuoted.go] at h'
-                      | succ f2 =>
-                        simp [lexQuoted.go] at h'
-                        exact hne ['\\'] (by simp [h'.2])
-                    rw [lexString_go_bs g' _ c3 r3 hc3]; simp
-                  · rw [lexString_go_plain g' _ c2 _ hq2 hb2]; simp
-                rw [hstep]
-                obtain ⟨m, hm, hgo⟩ := ih (c3 :: r3) _ (acc' ++ ['\\', c2]) t h'
-                  (by intro p hp; exact hne ('\\' :: c2 :: p) (by simp [hp])) g' (by simp at hf' ⊢; omega)
-                exact ⟨['\\', c2] ++ m, by simp [hm], by simpa using hgo⟩
+            obtain ⟨m, hm, hgo⟩ := ih r2 _ (acc' ++ ['\\', c2]) t h' g (by simp at hf'; omega)
+            refine ⟨['\\', c2] ++ m, by simp [hm], ?_⟩
+            rw [lexString_go_bs]; simpa using hgo
         · have h' : lexQuoted.go '"' f (acc ++ [c]) r = some (t, []) := by
             simp only [lexQuoted.go] at h
             split at h
@@ -221,8 +193,7 @@ theorem lexString_of_lexQuoted (f : Nat) : ∀ (s acc acc' t : List Char), lexQu
                 · cases h
                 · exact h
           rw [lexString_go_plain g acc' c r hq hb]
-          obtain ⟨m, hm, hgo⟩ := ih r _ (acc' ++ [c]) t h'
-            (by intro p hp; exact hne (c :: p) (by simp [hp])) g (by simp at hf'; omega)
+          obtain ⟨m, hm, hgo⟩ := ih r _ (acc' ++ [c]) t h' g (by simp at hf'; omega)
           exact ⟨[c] ++ m, by simp [hm], by simpa using hgo⟩
 
 /-! ## `MacroFunction.replace` on replacement lists with `#` and without `##`, against `Spec.Prosser.subst` -/
@@ -528,7 +499,7 @@ theorem strTextOk_cons_bs (d : Char) (m : List Char) (h1 : d ≠ '"') : strTextO
 
 /-- what `Lexer.string_constant` collects is a text of the class `strTextOk` -/
 theorem lexString_go_ok (fuel : Nat) : ∀ (acc s t r : List Char), lexString.go fuel acc s = some (t, r) →
-    ∃ m, t = acc ++ m ∧ strTextOk m = true ∧ s = m ++ '"' :: r := by
+    ∃ m, t = acc ++ m ∧ strTextOk m = true ∧ m.head? ≠ some '"' ∧ s = m ++ '"' :: r := by
   induction fuel with
   | zero => intro acc s t r h; simp [lexString.go] at h
   | succ f ih =>
@@ -541,7 +512,7 @@ theorem lexString_go_ok (fuel : Nat) : ∀ (acc s t r : List Char), lexString.go
         rw [lexString.go] at h
         simp at h
         obtain ⟨rfl, rfl⟩ := h
-        exact ⟨[], by simp, rfl, rfl⟩
+        exact ⟨[], by simp, rfl, by simp, rfl⟩
       · by_cases hb : c = '\\'
         · subst hb
           match rest, h with
@@ -550,25 +521,25 @@ theorem lexString_go_ok (fuel : Nat) : ∀ (acc s t r : List Char), lexString.go
             rw [show lexString.go f (acc ++ ['\\']) [] = none from by cases f <;> rfl] at h
             cases h
           | d :: rest2, h =>
+            rw [lexString_go_bs f acc d rest2] at h
+            obtain ⟨m, h1, h2, h3, h4⟩ := ih _ _ _ _ h
+            refine ⟨'\\' :: d :: m, by simp [h1], ?_, by simp, by simp [h4]⟩
             by_cases hd : d = '"'
-            · subst hd
-              rw [lexString.go] at h
-              obtain ⟨m, h1, h2, h3⟩ := ih _ _ _ _ h
-              exact ⟨'\\' :: '"' :: m, by simp [h1], by simpa [strTextOk] using h2, by simp [h3]⟩
-            · rw [lexString_go_bs f acc d rest2 hd] at h
-              obtain ⟨m, h1, h2, h3⟩ := ih _ _ _ _ h
-              match m, h1, h2, h3 with
-              | [], _, _, h3 => simp at h3; exact absurd h3.1 hd
-              | e :: m2, h1, h2, h3 =>
-                have he : e = d := by simp at h3; exact h3.1.symm
-                subst he
-                exact ⟨'\\' :: e :: m2, by simp [h1], by rw [strTextOk_cons_bs e m2 hd]; exact h2, by simp [h3]⟩
+            · subst hd; simpa [strTextOk] using h2
+            · rw [strTextOk_cons_bs d m hd]
+              by_cases hd2 : d = '\\'
+              · subst hd2
+                match m, h2, h3 with
+                | [], _, _ => rfl
+                | e :: m2, h2, h3 =>
+                  have he : e ≠ '"' := by intro he; subst he; simp at h3
+                  rw [strTextOk_cons_bs e m2 he]
+                  exact h2
+              · rw [strTextOk_cons_plain d m hd hd2]; exact h2
         · rw [lexString_go_plain f acc c rest hq hb] at h
-          obtain ⟨m, h1, h2, h3⟩ := ih _ _ _ _ h
-          exact ⟨c :: m, by simp [h1], by rw [strTextOk_cons_plain c m hq hb]; exact h2, by simp [h3]⟩
+          obtain ⟨m, h1, h2, h3, h4⟩ := ih _ _ _ _ h
+          exact ⟨c :: m, by simp [h1], by rw [strTextOk_cons_plain c m hq hb]; exact h2, by simpa using hq, by simp [h4]⟩
 
-/-- **every token `Lexer.tokenize_one` returns is in the class** (arguments, replacement lists, results of `#` and `##` are made
-    of such tokens) -/
 theorem tokenizeOne_tokOk (s : List Char) (pw : Bool) (t : Tok) (r : List Char) (h : tokenizeOne s pw = some (t, r)) :
     tokOk t = true := by
   unfold tokenizeOne at h
